@@ -31,11 +31,17 @@ def run_cases(ck, res, n_cases, n_interval):
             r1 = 0.0                                            # reversed orientation ending exactly at the origin
         k = dy(r, 0.125, 4)
         bounded = kind in ('inf', 'inf_basis')
+        # very fast decay far from the origin: k * r_0 in the hundreds or thousands (exp(k r_0) alone overflows; the
+        # condition only ever needs exp(-k (r - r_0)) for r >= r_0)
+        bigk = bounded and r.random() < 0.2
+        if bigk:
+            k, r0 = r.choice([256.0, 1024.0]), max(r0, 1.0) + r.choice([0.0, 40.0])
+        rr = (lambda: r0 + dy(r, 0, 8, 4)) if bigk else (lambda: dy(r, 0, 8, 4))
         nk = ('one', 'sin') if bounded else ('one', 'pow', 'sin')
         if kind in ('shell2', 'shell1', 'inf'):
             net_p = Probe(3, r, kinds=nk)
             f_p, g_p = Probe(2, r, kinds=('one', 'sin', 'pow')), Probe(2, r, kinds=('one', 'sin', 'pow'))
-            if ci % 4 == 1:
+            if r.random() < 0.25:
                 # a network whose parameters are float32 while the samples are float64 (mixed precision): the boundary data
                 # must still be evaluated at the float64 coordinates
                 with enga.default_dtype(torch, torch.float32):
@@ -50,7 +56,7 @@ def run_cases(ck, res, n_cases, n_interval):
                 cond = C.DirichletBVPSpherical(r_0=r0, f=f)
             else:
                 cond = C.InfDirichletBVPSpherical(r_0=r0, f=f, g=g, order=k)
-            rs = [r0] + ([r1] if kind == 'shell2' else []) + [dy(r, 0, 8, 4) for _ in range(3)]
+            rs = [r0] + ([r1] if kind == 'shell2' else []) + [rr() for _ in range(3)]
             nd = lambda v: v + r.choice([0.01, 0.003, 1.0 / 300.0]) if r.random() < 0.4 else v      # not float32-representable
             ths = [nd(dy(r, 0, 3.125, 4)) for _ in rs]
             phs = [nd(dy(r, 0, 6.25, 4)) for _ in rs]
@@ -113,14 +119,14 @@ def run_cases(ck, res, n_cases, n_interval):
                 cond = C.DirichletBVPSphericalBasis(r_0=r0, R_0=as_t(R0v))
             else:
                 cond = C.InfDirichletBVPSphericalBasis(r_0=r0, R_0=as_t(R0v), R_inf=as_t(R1v), order=k)
-            rs = [r0] + ([r1] if kind == 'basis2' else []) + [dy(r, 0, 8, 4) for _ in range(2)]
+            rs = [r0] + ([r1] if kind == 'basis2' else []) + [rr() for _ in range(2)]
             if kind == 'inf_basis':
                 rs += [r0 + 12.0 / min(k, 2.0), r0 + 24.0 / min(k, 2.0)]
             # the coincidence "number of rows == number of coefficients" (a flat per-column vector must never be read as a
             # per-row vector): pad with interior rows until n == W in most of the vector-shaped cases
             nb = 2 if kind == 'basis2' else 1
             if shape == 'vec' and W > len(rs) and r.random() < 0.7:
-                rs = rs[:nb] + [dy(r, 0, 8, 4) for _ in range(W - len(rs))] + rs[nb:]
+                rs = rs[:nb] + [rr() for _ in range(W - len(rs))] + rs[nb:]
             out = cond.enforce(net, enga.col(torch, rs)).detach()
             inp = {'kind': kind, 'width': W, 'shape': shape, 'params': {'r_0': r0, 'r_1': r1, 'order': k}, 'R_0': R0v, 'R_1': R1v,
                    'net': [c.describe() for c in cols], 'r': rs}
